@@ -82,19 +82,28 @@ Proof. repeat split. Qed.
 Lemma keep_trans a b c : keep a b -> keep b c -> keep a c.
 Proof. intros (A1 & A2 & A3) (B1 & B2 & B3). repeat split; congruence. Qed.
 
+Lemma W_ptr st st' : W st -> impls st' = impls st ->
+  (forall w, get_connptr w st' = get_connptr w st \/ unreg w st) -> W st'.
+Proof.
+  intros HW Ei Hp. apply (W_upd st); [exact HW| |].
+  - intros i n. right. apply wat_impls. exact Ei.
+  - intro w. destruct (Hp w) as [P|P]; [left; exact P|right; eapply unreg_impls; eauto].
+Qed.
+
 Lemma WN_ptr st st' : WN st -> impls st' = impls st ->
   (forall w, get_connptr w st' = get_connptr w st \/ unreg w st) -> WN st'.
 Proof.
-  intros (HW & HS) Ei Hp. split.
-  - apply (W_upd st); [exact HW| |].
-    + intros i n. right. apply wat_impls. exact Ei.
-    + intro w. destruct (Hp w) as [P|P]; [left; exact P|right; eapply unreg_impls; eauto].
-  - unfold ST. rewrite Ei. exact HS.
+  intros (HW & HS) Ei Hp. split; [eapply W_ptr; eauto|]. unfold ST. rewrite Ei. exact HS.
+Qed.
+
+Lemma W_keep st st' : keep st st' -> W st -> W st'.
+Proof.
+  intros (A & B & C) H. apply (W_ptr st); [exact H|exact A|]. intro w. left. apply get_connptr_eq; assumption.
 Qed.
 
 Lemma WN_keep st st' : keep st st' -> WN st -> WN st'.
 Proof.
-  intros (A & B & C) H. apply (WN_ptr st); [exact H|exact A|]. intro w. left. apply get_connptr_eq; assumption.
+  intros K (HW & HS). split; [eapply W_keep; eauto|]. unfold ST. rewrite (proj1 K). exact HS.
 Qed.
 
 Lemma unreg_keep st st' w : keep st st' -> unreg w st -> unreg w st'.
@@ -228,15 +237,1237 @@ Proof.
 Qed.
 
 (* pointers *)
-Lemma null_watchers_w ws st : WN st -> (forall w, In w ws -> unreg w st) -> WN (null_watchers ws st).
+Lemma null_watchers_W ws st : W st -> (forall w, In w ws -> unreg w st) -> W (null_watchers ws st).
 Proof.
-  intros H Hu. apply (WN_ptr st); [exact H|exact (proj1 (proj2 (proj2 (null_watchers_fields ws st))))|].
+  intros H Hu. apply (W_ptr st); [exact H|exact (proj1 (proj2 (proj2 (null_watchers_fields ws st))))|].
   intro w. rewrite get_connptr_null_watchers. destruct (existsb (wref_eqb w) ws) eqn:E; [|left; reflexivity].
   right. apply Hu. apply existsb_wref. exact E.
 Qed.
 
-Lemma set_connptr_w w p st : WN st -> unreg w st -> WN (set_connptr w p st).
+Lemma null_watchers_impls ws st : impls (null_watchers ws st) = impls st.
+Proof. exact (proj1 (proj2 (proj2 (null_watchers_fields ws st)))). Qed.
+
+Lemma null_watchers_w ws st : WN st -> (forall w, In w ws -> unreg w st) -> WN (null_watchers ws st).
 Proof.
-  intros H Hu. apply (WN_ptr st); [exact H|exact (sh_impls _ _ (set_connptr_heavy w p st))|].
+  intros (HW & HS) Hu. split; [apply null_watchers_W; assumption|]. unfold ST. rewrite null_watchers_impls. exact HS.
+Qed.
+
+Lemma set_connptr_impls w p st : impls (set_connptr w p st) = impls st.
+Proof. exact (sh_impls _ _ (set_connptr_heavy w p st)). Qed.
+
+Lemma set_connptr_W w p st : W st -> unreg w st -> W (set_connptr w p st).
+Proof.
+  intros H Hu. apply (W_ptr st); [exact H|apply set_connptr_impls|].
   intro w'. rewrite get_set_connptr. destruct (wref_eqb_spec w' w) as [->|Hne]; [right; exact Hu|left; reflexivity].
 Qed.
+
+(* ------------------------------------------------------------------ *)
+(* Part 2: the primitives that cascade                                  *)
+
+Lemma track_add_keep t rid st st' : track_add t rid st = Ok st' -> keep st st'.
+Proof.
+  unfold track_add. destruct (live_track t st) as [tr|]; [|discriminate].
+  destruct (t_clearing tr); intro H; inversion H; repeat split.
+Qed.
+
+Lemma track_remove_keep t rid st st' : track_remove t rid st = Ok st' -> keep st st'.
+Proof.
+  unfold track_remove. destruct (live_track t st) as [tr|]; [|discriminate].
+  destruct (t_clearing tr); intro H; inversion H; repeat split.
+Qed.
+
+Lemma bind_all_keep rid refs : forall st st', bind_all rid refs st = Ok st' -> keep st st'.
+Proof.
+  induction refs as [|t refs IH]; intros st st'; cbn [bind_all]; [intro H; inversion H; apply keep_refl|].
+  destruct (track_add t rid st) as [st1|] eqn:E; cbn [rbind]; [|discriminate].
+  intro H. eapply keep_trans; [eapply track_add_keep; eauto|eauto].
+Qed.
+
+Lemma unbind_all_keep rid refs : forall st st', unbind_all rid refs st = Ok st' -> keep st st'.
+Proof.
+  induction refs as [|t refs IH]; intros st st'; cbn [unbind_all]; [intro H; inversion H; apply keep_refl|].
+  destruct (track_remove t rid st) as [st1|] eqn:E; cbn [rbind]; [|discriminate].
+  intro H. eapply keep_trans; [eapply track_remove_keep; eauto|eauto].
+Qed.
+
+Lemma keep_set_track t tr st : keep st (set_track t tr st).
+Proof. repeat split. Qed.
+
+(* `delete rep` of a rep taken out of its owner: its watchers must not be registered elsewhere *)
+Lemma rep_delete_w r st st' : WN st -> (forall w, In w (r_watch r) -> unreg w st) ->
+  rep_delete r st = Ok st' -> WN st' /\ impls st' = impls st.
+Proof.
+  intros H Hu. unfold rep_delete. set (st0 := if r_attached r then _ else _).
+  assert (K0 : keep st st0) by (unfold st0; destruct (r_attached r); repeat split).
+  destruct (match r_fn r with Some f => unbind_all (r_id r) (f_refs f) st0 | None => Ok st0 end) as [st1|] eqn:E1; cbn [rbind]; [|discriminate].
+  assert (K1 : keep st st1).
+  { eapply keep_trans; [exact K0|]. destruct (r_fn r); [eapply unbind_all_keep; eauto|inversion E1; apply keep_refl]. }
+  intro E. inversion E; subst st'. split.
+  - apply null_watchers_w; [eapply WN_keep; eauto|]. intros w Hin. eapply unreg_keep; eauto.
+  - rewrite null_watchers_impls. exact (proj1 K1).
+Qed.
+
+Lemma sb_delete_w sb st st' : WN st -> (forall w, In w (sbw sb) -> unreg w st) ->
+  sb_delete sb st = Ok st' -> WN st' /\ impls st' = impls st.
+Proof.
+  unfold sb_delete, sbw. destruct (sb_rep sb) as [r|]; [apply rep_delete_w|]. intros H _ E. inversion E; subst. auto.
+Qed.
+
+Lemma erase_node_w i n st st' : WN st -> erase_node i n st = Ok st' -> WN st'.
+Proof.
+  intros H. unfold erase_node. destruct (aget i (impls st)) as [im|] eqn:Hi; [|discriminate].
+  destruct (find_node n (i_nodes im)) as [nd|] eqn:Hf; [|discriminate].
+  set (st1 := set_impl i (with_nodes (del_node n (i_nodes im)) im) st).
+  assert (H1 : WN st1) by (unfold st1; eapply WN_set_impl; [exact H|exact Hi|apply nle_del_node]).
+  intro E. refine (proj1 (sb_delete_w _ _ _ H1 _ E)).
+  intros w Hin. apply (W_unreg_at st1 w i n (proj1 H1)).
+  - unfold st1. rewrite get_connptr_set_impl. apply (proj2 (proj1 H i n)). unfold wat, watl. rewrite Hi, Hf. exact Hin.
+  - unfold st1. rewrite wat_set_impl, N.eqb_refl. cbn [i_nodes with_nodes]. unfold watl.
+    rewrite find_node_del_same by exact (proj2 (proj2 H) i im Hi). intros [].
+Qed.
+
+Lemma parent_cleanup_w i n st st' : WN st -> parent_cleanup i n st = Ok st' -> WN st'.
+Proof.
+  intro H. unfold parent_cleanup. destruct (aget i (impls st)) as [im|] eqn:Hi; [|intro E; inversion E; subst; exact H].
+  destruct (i_dying im); [intro E; inversion E; subst; exact H|].
+  destruct (N.eqb (i_exec im) 0); [apply erase_node_w; exact H|].
+  intro E. inversion E; subst. eapply WN_set_impl; [exact H|exact Hi|apply nle_refl].
+Qed.
+
+Lemma WN_set_rep l sb r r' b' st : WN st -> get_sb l st = Some sb -> sb_rep sb = Some r -> r_watch r' = r_watch r ->
+  WN (set_sb l (mkSB (Some r') b') st).
+Proof.
+  intros H G R Ew. apply (WN_set_sb l sb); [exact H|exact G|]. right. unfold sbw. cbn [sb_rep]. rewrite R. exact Ew.
+Qed.
+
+Lemma rep_disconnect_w l st st' : WN st -> rep_disconnect l st = Ok st' -> WN st'.
+Proof.
+  intros H. unfold rep_disconnect. destruct (get_rep l st) as [r|] eqn:Hg; [|intro E; inversion E; subst; exact H].
+  destruct (get_rep_inv _ _ _ Hg) as (sb & Hsb & Hrep). unfold set_rep. rewrite Hsb.
+  destruct (r_attached r).
+  - destruct l as [s|i n]; [discriminate|]. apply parent_cleanup_w.
+    eapply WN_set_rep; [exact H|exact Hsb|exact Hrep|reflexivity].
+  - intro E. inversion E; subst. eapply WN_set_rep; [exact H|exact Hsb|exact Hrep|reflexivity].
+Qed.
+
+Lemma rep_destroy_w l st st' : WN st -> rep_destroy l st = Ok st' -> WN st'.
+Proof.
+  intros H. unfold rep_destroy. destruct (get_rep l st) as [r|] eqn:Hg; [|intro E; inversion E; subst; exact H].
+  destruct (get_rep_inv _ _ _ Hg) as (sb & Hsb & Hrep). unfold set_rep. rewrite Hsb.
+  set (st1 := set_sb l _ st).
+  assert (H1 : WN st1) by (unfold st1; eapply WN_set_rep; [exact H|exact Hsb|exact Hrep|reflexivity]).
+  destruct (r_fn r) as [f|].
+  - intro E. eapply WN_keep; [eapply unbind_all_keep; exact E|exact H1].
+  - intro E. inversion E; subst. exact H1.
+Qed.
+
+Lemma rep_invalidated_w rid st st' : WN st -> rep_invalidated rid st = Ok st' -> WN st'.
+Proof.
+  intros H. unfold rep_invalidated. destruct (find_rep rid st) as [l|]; [|discriminate].
+  destruct (rep_disconnect l st) as [st1|] eqn:E1; cbn [rbind]; [|discriminate].
+  pose proof (rep_disconnect_w l st st1 H E1) as H1.
+  destruct (find_rep rid st1) as [l'|]; [apply rep_destroy_w; exact H1|intro E; inversion E; subst; exact H1].
+Qed.
+
+Lemma track_round_w fuel : forall k t st st', WN st -> track_round fuel k t st = Ok st' -> WN st'.
+Proof.
+  induction fuel as [|fuel IH]; intros k t st st' H; cbn [track_round]; [intro E; inversion E; subst; exact H|].
+  destruct (live_track t st) as [tr|]; [|discriminate].
+  destruct (t_list tr) as [l|]; [|intro E; inversion E; subst; exact H].
+  destruct (nth_error l k) as [[rid f]|]; [|intro E; inversion E; subst; exact H].
+  destruct f.
+  - destruct (rep_invalidated rid st) as [st1|] eqn:E1; cbn [rbind]; [|discriminate].
+    apply IH. eapply rep_invalidated_w; eauto.
+  - apply IH. exact H.
+Qed.
+
+Lemma track_notify_w t st st' : WN st -> track_notify t st = Ok st' -> WN st'.
+Proof.
+  intros H. unfold track_notify. destruct (live_track t st) as [tr|]; [|intro E; inversion E; subst; exact H].
+  destruct (t_list tr) as [l|]; [|intro E; inversion E; subst; exact H].
+  destruct (track_round (length l) 0 t (set_track t (mkTr (Some l) true) st)) as [st2|] eqn:E2; cbn [rbind]; [|discriminate].
+  intro E. inversion E; subst. eapply WN_keep; [apply keep_set_track|].
+  eapply track_round_w; [|exact E2]. eapply WN_keep; [apply keep_set_track|exact H].
+Qed.
+
+Lemma disconnect_nodes_w i ns : forall st st', WN st -> disconnect_nodes i ns st = Ok st' -> WN st'.
+Proof.
+  induction ns as [|n ns IH]; intros st st' H; cbn [disconnect_nodes]; [intro E; inversion E; subst; exact H|].
+  destruct (rep_disconnect (LNode i n) st) as [st1|] eqn:E1; cbn [rbind]; [|discriminate].
+  apply IH. eapply rep_disconnect_w; eauto.
+Qed.
+
+Lemma delete_sbs_w l : forall st st', WN st -> (forall nd w, In nd l -> In w (sbw (n_sb nd)) -> unreg w st) ->
+  delete_sbs l st = Ok st' -> WN st' /\ impls st' = impls st.
+Proof.
+  induction l as [|x l IH]; intros st st' H Hu; cbn [delete_sbs]; [intro E; inversion E; subst; auto|].
+  destruct (sb_delete (n_sb x) st) as [st1|] eqn:E1; cbn [rbind]; [|discriminate].
+  destruct (sb_delete_w _ _ _ H (fun w Hw => Hu x w (or_introl eq_refl) Hw) E1) as (H1 & Ei1).
+  intro E. destruct (IH st1 st' H1) as (H2 & Ei2); [|exact E|split; [exact H2|congruence]].
+  intros nd w Hin Hw. eapply unreg_impls; [exact Ei1|]. apply (Hu nd w); [right; exact Hin|exact Hw].
+Qed.
+
+(* empty the list of impl i and delete all its slot bases *)
+Lemma clear_nodes_w i im im' st st' : WN st -> aget i (impls st) = Some im -> i_nodes im' = [] ->
+  delete_sbs (i_nodes im) (set_impl i im' st) = Ok st' -> WN st'.
+Proof.
+  intros H Hi Hn E.
+  assert (H1 : WN (set_impl i im' st)) by (eapply WN_set_impl; [exact H|exact Hi|rewrite Hn; apply nle_nil]).
+  refine (proj1 (delete_sbs_w _ _ _ H1 _ E)).
+  intros nd w Hin Hw. apply (W_unreg_at _ w i (n_id nd) (proj1 H1)).
+  - rewrite get_connptr_set_impl. apply (proj2 (proj1 H i (n_id nd))). unfold wat, watl. rewrite Hi.
+    rewrite (find_node_in_nodup _ _ (proj2 (proj2 H) i im Hi) Hin). exact Hw.
+  - rewrite wat_set_impl, N.eqb_refl. unfold watl. rewrite Hn. intros [].
+Qed.
+
+Lemma upd_impl_w i f st st' : WN st -> (forall im, i_nodes (f im) = i_nodes im) -> upd_impl i f st = Ok st' -> WN st'.
+Proof.
+  intros H Hf. unfold upd_impl. destruct (aget i (impls st)) as [im|] eqn:Hi; [|discriminate].
+  intro E. inversion E; subst. eapply WN_set_impl; [exact H|exact Hi|rewrite Hf; apply nle_refl].
+Qed.
+
+Lemma upd_impl_opt_w i f st st' : WN st -> (forall im, i_nodes (f im) = i_nodes im) -> upd_impl_opt i f st = Ok st' -> WN st'.
+Proof.
+  intros H Hf. unfold upd_impl_opt. destruct (aget i (impls st)) as [im|] eqn:Hi; [|intro E; inversion E; subst; exact H].
+  intro E. inversion E; subst. eapply WN_set_impl; [exact H|exact Hi|rewrite Hf; apply nle_refl].
+Qed.
+
+Lemma destroy_impl_w i st st' : WN st -> destroy_impl i st = Ok st' -> WN st'.
+Proof.
+  intros H. unfold destroy_impl.
+  destruct (upd_impl i _ st) as [st1|] eqn:E1; cbn [rbind]; [|discriminate].
+  assert (H1 : WN st1) by (eapply upd_impl_w; [exact H| |exact E1]; intro; reflexivity).
+  destruct (aget i (impls st1)) as [im|]; [|discriminate].
+  destruct (disconnect_nodes i (map n_id (i_nodes im)) st1) as [st2|] eqn:E2; cbn [rbind]; [|discriminate].
+  pose proof (disconnect_nodes_w _ _ _ _ H1 E2) as H2.
+  destruct (aget i (impls st2)) as [im2|] eqn:Hi2; [|discriminate]. cbv zeta.
+  destruct (delete_sbs (i_nodes im2) (set_impl i (with_nodes [] im2) st2)) as [st4|] eqn:E4; cbn [rbind]; [|discriminate].
+  pose proof (clear_nodes_w i im2 (with_nodes [] im2) st2 st4 H2 Hi2 eq_refl E4) as H4.
+  intro E. inversion E; subst. apply WN_adel. exact H4.
+Qed.
+
+Lemma release_check_w i st st' : WN st -> release_check i st = Ok st' -> WN st'.
+Proof.
+  intro H. unfold release_check. destruct (aget i (impls st)) as [im|]; [|intro E; inversion E; subst; exact H].
+  destruct (N.eqb (refcount i st) 0 && negb (i_dying im)); [apply destroy_impl_w; exact H|intro E; inversion E; subst; exact H].
+Qed.
+
+Lemma sweep_nodes_w i ns : forall st st', WN st -> sweep_nodes i ns st = Ok st' -> WN st'.
+Proof.
+  induction ns as [|n ns IH]; intros st st' H; cbn [sweep_nodes]; [intro E; inversion E; subst; exact H|].
+  destruct (get_sb (LNode i n) st) as [sb|]; [|discriminate].
+  destruct (sb_empty sb); [|apply IH; exact H].
+  destruct (rep_disconnect (LNode i n) st) as [st0|] eqn:E0; cbn [rbind]; [|discriminate].
+  destruct (erase_node i n st0) as [st1|] eqn:E1; cbn [rbind]; [|discriminate].
+  apply IH. eapply erase_node_w; [|exact E1]. eapply rep_disconnect_w; eauto.
+Qed.
+
+Lemma sweep_pass_w i st st' : WN st -> sweep_pass i st = Ok st' -> WN st'.
+Proof.
+  intro H. unfold sweep_pass.
+  destruct (upd_impl i _ st) as [st1|] eqn:E1; cbn [rbind]; [|discriminate].
+  assert (H1 : WN st1) by (eapply upd_impl_w; [exact H| |exact E1]; intro; reflexivity).
+  destruct (aget i (impls st1)) as [im|]; [|discriminate].
+  destruct (sweep_nodes i (map n_id (i_nodes im)) st1) as [st2|] eqn:E2; cbn [rbind]; [|discriminate].
+  intro E. eapply upd_impl_w; [eapply sweep_nodes_w; eauto| |exact E]. intro; reflexivity.
+Qed.
+
+Lemma sweep_w i st st' : WN st -> sweep i st = Ok st' -> WN st'.
+Proof.
+  intros H. unfold sweep.
+  destruct (sweep_pass i st) as [st1|] eqn:E1; cbn [rbind]; [|discriminate].
+  pose proof (sweep_pass_w _ _ _ H E1) as H1.
+  assert (Hmid : forall st2, match aget i (impls st1) with
+         | Some im =>
+             if N.eqb (i_exec im) 0 && i_deferred im
+             then st2 <- sweep_pass i st1;;
+                  st3 <- upd_impl i (fun im0 => with_holders (i_holders im0 - 1) im0) st2;;
+                  release_check i st3
+             else Ok st1
+         | None => Err ErrUAF
+         end = Ok st2 -> WN st2).
+  { intros st2. destruct (aget i (impls st1)) as [im1|]; [|discriminate].
+    destruct (N.eqb (i_exec im1) 0 && i_deferred im1); [|intro E; inversion E; subst; auto].
+    destruct (sweep_pass i st1) as [sta|] eqn:Ea; cbn [rbind]; [|discriminate].
+    pose proof (sweep_pass_w _ _ _ H1 Ea) as Ha.
+    destruct (upd_impl i (fun im0 => with_holders (i_holders im0 - 1) im0) sta) as [stb|] eqn:Eb; cbn [rbind]; [|discriminate].
+    apply release_check_w. eapply upd_impl_w; [exact Ha| |exact Eb]. intro; reflexivity. }
+  destruct (match aget i (impls st1) with Some _ => _ | None => _ end) as [st2|]; cbn [rbind]; [|discriminate].
+  pose proof (Hmid st2 eq_refl) as H2.
+  destruct (upd_impl_opt i (fun im0 => with_holders (i_holders im0 - 1) im0) st2) as [st3|] eqn:E3; cbn [rbind]; [|discriminate].
+  apply release_check_w. eapply upd_impl_opt_w; [exact H2| |exact E3]. intro; reflexivity.
+Qed.
+
+Lemma unreference_exec_w i st st' : WN st -> unreference_exec i st = Ok st' -> WN st'.
+Proof.
+  intros H. unfold unreference_exec.
+  destruct (upd_impl i (fun im => with_exec (i_exec im - 1) im) st) as [st1|] eqn:E1; cbn [rbind]; [|discriminate].
+  assert (H1 : WN st1) by (eapply upd_impl_w; [exact H| |exact E1]; intro; reflexivity).
+  destruct (aget i (impls st1)) as [im|]; [|discriminate].
+  destruct (N.eqb (i_exec im) 0 && i_deferred im); [apply sweep_w; exact H1|intro E; inversion E; subst; exact H1].
+Qed.
+
+Lemma impl_clear_w i st st' : WN st -> impl_clear i st = Ok st' -> WN st'.
+Proof.
+  intros H. unfold impl_clear. destruct (aget i (impls st)) as [im|] eqn:Hi; [|discriminate]. cbv zeta.
+  set (st1 := set_impl i (with_exec (i_exec im + 1) im) st).
+  assert (H1 : WN st1) by (unfold st1; eapply WN_set_impl; [exact H|exact Hi|apply nle_refl]).
+  destruct (disconnect_nodes i (map n_id (i_nodes im)) st1) as [st2|] eqn:E2; cbn [rbind]; [|discriminate].
+  pose proof (disconnect_nodes_w _ _ _ _ H1 E2) as H2.
+  destruct (negb (N.eqb (i_exec im) 0)).
+  - cbn [rbind]. apply unreference_exec_w. exact H2.
+  - destruct (aget i (impls st2)) as [im2|] eqn:Hi2; [|discriminate].
+    set (imc := with_nodes [] (with_deferred (i_deferred im) im2)).
+    destruct (delete_sbs (i_nodes im2) (set_impl i imc st2)) as [st3|] eqn:E3; cbn [rbind]; [|discriminate].
+    apply unreference_exec_w. exact (clear_nodes_w i im2 imc st2 st3 H2 Hi2 eq_refl E3).
+Qed.
+
+Lemma frame_leave_w i ph st st' : WN st -> frame_leave i ph st = Ok st' -> WN st'.
+Proof.
+  intros H. unfold frame_leave.
+  destruct (erase_node i ph st) as [st1|] eqn:E1; cbn [rbind]; [|discriminate].
+  pose proof (erase_node_w _ _ _ _ H E1) as H1.
+  destruct (unreference_exec i st1) as [st2|] eqn:E2; cbn [rbind]; [|discriminate].
+  pose proof (unreference_exec_w _ _ _ H1 E2) as H2.
+  destruct (upd_impl i (fun im => with_holders (i_holders im - 1) im) st2) as [st3|] eqn:E3; cbn [rbind]; [|discriminate].
+  apply release_check_w. eapply upd_impl_w; [exact H2| |exact E3]. intro; reflexivity.
+Qed.
+
+Lemma conn_disconnect_w p st st' : WN st -> conn_disconnect p st = Ok st' -> WN st'.
+Proof.
+  intros H. unfold conn_disconnect. destruct (conn_target p st) as [t|]; cbn [rbind]; [|discriminate].
+  destruct t as [[l sb]|]; [apply rep_disconnect_w; exact H|intro E; inversion E; subst; exact H].
+Qed.
+
+Lemma block_all_w i b st st' : WN st ->
+  upd_impl i (fun im => with_nodes (map (fun x => mkNode (n_id x) (mkSB (sb_rep (n_sb x)) b)) (i_nodes im)) im) st = Ok st' -> WN st'.
+Proof.
+  intros H. unfold upd_impl. destruct (aget i (impls st)) as [im|] eqn:Hi; [|discriminate].
+  intro E. inversion E; subst. eapply WN_set_impl; [exact H|exact Hi|]. cbn [i_nodes with_nodes]. apply nle_map_blocked.
+Qed.
+
+Lemma WN_set_impl_empty i im' st : WN st -> i_nodes im' = [] -> WN (set_impl i im' st).
+Proof.
+  intros H Hn. destruct (aget i (impls st)) as [im|] eqn:Hi.
+  - eapply WN_set_impl; [exact H|exact Hi|rewrite Hn; apply nle_nil].
+  - apply WN_new_impl; assumption.
+Qed.
+
+Lemma ensure_impl_w g go st i st1 : WN st -> ensure_impl g go st = (i, st1) -> WN st1.
+Proof.
+  intros H. unfold ensure_impl. destruct (g_impl go) as [i0|]; [intro E; inversion E; subst; exact H|].
+  intro E. inversion E; subst i st1. clear E.
+  apply (WN_keep (set_impl (next_iid st) (mkImpl [] 0 false 0 false) (with_next_iid (next_iid st + 1) st))); [repeat split|].
+  apply WN_set_impl_empty; [|reflexivity]. apply (WN_keep st); [repeat split|exact H].
+Qed.
+
+(* ------------------------------------------------------------------ *)
+(* Part 2b: registrations (these need W only)                           *)
+
+Lemma NoDup_remove_first {A} (p : A -> bool) l : NoDup l -> NoDup (remove_first p l).
+Proof.
+  induction l as [|x l IH]; cbn [remove_first]; intro H; [constructor|].
+  inversion H as [|? ? H1 H2]; subst. destruct (p x); [exact H2|]. constructor; [|apply IH; exact H2].
+  intro Hin. apply H1. clear -Hin. induction l as [|y l IH]; cbn [remove_first] in *; [contradiction|].
+  destruct (p y); [right; exact Hin|]. destruct Hin as [E|Hin]; [left; exact E|right; auto].
+Qed.
+
+Lemma In_remove_first {A} (p : A -> bool) x l : In x (remove_first p l) -> In x l.
+Proof.
+  induction l as [|y l IH]; cbn [remove_first]; [tauto|].
+  destruct (p y); [intro H; right; exact H|]. intros [E|H]; [left; exact E|right; auto].
+Qed.
+
+Lemma remove_first_not_in w l : NoDup l -> ~ In w (remove_first (wref_eqb w) l).
+Proof.
+  induction l as [|y l IH]; cbn [remove_first]; intro H; [tauto|].
+  inversion H as [|? ? H1 H2]; subst. destruct (wref_eqb_spec w y) as [->|Hne]; [exact H1|].
+  intros [E|Hin]; [congruence|exact (IH H2 Hin)].
+Qed.
+
+Lemma wref_eqb_refl w : wref_eqb w w = true.
+Proof. destruct (wref_eqb_spec w w); [reflexivity|congruence]. Qed.
+
+(* replacing the watch list of an element by a duplicate-free sub-list *)
+Lemma W_set_sb_sub i n sb sb' st : W st -> get_sb (LNode i n) st = Some sb ->
+  NoDup (sbw sb') -> incl (sbw sb') (sbw sb) -> W (set_sb (LNode i n) sb' st).
+Proof.
+  intros HW G Hnd Hin j m. rewrite (wat_set_sb _ _ _ _ _ _ G).
+  destruct (loc_eqb_spec (LNode j m) (LNode i n)) as [Heq|Hne].
+  - inversion Heq; subst j m. split; [exact Hnd|]. intros x Hx. rewrite get_connptr_set_sb.
+    apply (proj2 (HW i n)). rewrite wat_get_sb, G. apply Hin. exact Hx.
+  - destruct (HW j m) as (A & B). split; [exact A|]. intros x Hx. rewrite get_connptr_set_sb. apply B. exact Hx.
+Qed.
+
+Lemma watch_add_ptr p w st st' : watch_add p w st = Ok st' -> forall w', get_connptr w' st' = get_connptr w' st.
+Proof.
+  unfold watch_add. destruct p as [[i n]|]; [|intro E; inversion E; reflexivity].
+  destruct (get_sb (LNode i n) st) as [sb|]; [|discriminate].
+  destruct (sb_rep sb); intro E; okinv E; intro w'; [apply get_connptr_set_sb|reflexivity].
+Qed.
+
+Lemma watch_add_w p w st st' : W st -> get_connptr w st = Some p -> unreg w st -> watch_add p w st = Ok st' -> W st'.
+Proof.
+  intros H Hp Hu. unfold watch_add. destruct p as [[i n]|]; [|intro E; inversion E; subst; exact H].
+  destruct (get_sb (LNode i n) st) as [sb|] eqn:G; [|discriminate].
+  destruct (sb_rep sb) as [r|] eqn:R; intro E; okinv E; [|exact H].
+  assert (Hw : wat st i n = r_watch r) by (rewrite wat_get_sb, G; unfold sbw; rewrite R; reflexivity).
+  intros j m. rewrite (wat_set_sb _ _ _ _ _ _ G).
+  destruct (loc_eqb_spec (LNode j m) (LNode i n)) as [Heq|Hne].
+  - inversion Heq; subst j m. unfold sbw. cbn [sb_rep r_watch r_with_watch].
+    destruct (H i n) as (A & B). rewrite Hw in A, B. split.
+    + apply NoDup_app_iff. split; [exact A|]. split; [constructor; [intros []|constructor]|].
+      intros x Hx [<-|[]]. apply (Hu i n). rewrite Hw. exact Hx.
+    + intros x Hx. rewrite get_connptr_set_sb. apply in_app_or in Hx. destruct Hx as [Hx|[<-|[]]]; [apply B; exact Hx|exact Hp].
+  - destruct (H j m) as (A & B). split; [exact A|]. intros x Hx. rewrite get_connptr_set_sb. apply B. exact Hx.
+Qed.
+
+Lemma watch_remove_w p w st st' : W st -> get_connptr w st = Some p -> watch_remove p w st = Ok st' ->
+  W st' /\ unreg w st' /\ (forall w', get_connptr w' st' = get_connptr w' st).
+Proof.
+  intros H Hp. unfold watch_remove. destruct p as [[i n]|].
+  2:{ intro E. inversion E; subst. split; [exact H|]. split; [|reflexivity].
+      apply W_unreg_null; [exact H|]. intros i n. rewrite Hp. discriminate. }
+  destruct (get_sb (LNode i n) st) as [sb|] eqn:G; [|discriminate].
+  destruct (sb_rep sb) as [r|] eqn:R; intro E; okinv E.
+  2:{ split; [exact H|]. split; [|reflexivity]. apply (W_unreg_at st w i n H Hp).
+      rewrite wat_get_sb, G. unfold sbw. rewrite R. intros []. }
+  assert (Hw : wat st i n = r_watch r) by (rewrite wat_get_sb, G; unfold sbw; rewrite R; reflexivity).
+  assert (Hnd : NoDup (r_watch r)) by (rewrite <- Hw; exact (proj1 (H i n))).
+  set (sb' := mkSB (Some (r_with_watch (remove_first (wref_eqb w) (r_watch r)) r)) (sb_blocked sb)).
+  assert (H' : W (set_sb (LNode i n) sb' st)).
+  { apply (W_set_sb_sub i n sb); [exact H|exact G| |].
+    - unfold sb', sbw. cbn [sb_rep r_watch r_with_watch]. apply NoDup_remove_first. exact Hnd.
+    - unfold sb', sbw. cbn [sb_rep r_watch r_with_watch]. rewrite R. intros x Hx. eapply In_remove_first; eauto. }
+  split; [exact H'|]. split; [|intro w'; apply get_connptr_set_sb].
+  apply (W_unreg_at _ w i n H'); [rewrite get_connptr_set_sb; exact Hp|].
+  rewrite (wat_set_sb _ _ _ _ _ _ G). destruct (loc_eqb_spec (LNode i n) (LNode i n)) as [_|Hne]; [|congruence].
+  unfold sb', sbw. cbn [sb_rep r_watch r_with_watch]. apply remove_first_not_in. exact Hnd.
+Qed.
+
+Lemma conn_set_w w p st st' : W st -> conn_set w p st = Ok st' ->
+  W st' /\ forall w', w' <> w -> get_connptr w' st' = get_connptr w' st.
+Proof.
+  intros H. unfold conn_set. destruct (get_connptr w st) as [old|] eqn:Hold; [|discriminate].
+  destruct (watch_remove old w st) as [st1|] eqn:E1; cbn [rbind]; [|discriminate].
+  destruct (watch_remove_w _ _ _ _ H Hold E1) as (H1 & U1 & P1).
+  destruct (watch_add p w (set_connptr w p st1)) as [st2|] eqn:E2; cbn [rbind]; [|discriminate].
+  intro E. inversion E; subst st'. split.
+  - eapply watch_add_w; [apply set_connptr_W; eassumption| | |exact E2].
+    + rewrite get_set_connptr, wref_eqb_refl. reflexivity.
+    + eapply unreg_impls; [apply set_connptr_impls|exact U1].
+  - intros w' Hne. rewrite (watch_add_ptr _ _ _ _ E2), get_set_connptr.
+    destruct (wref_eqb_spec w' w); [contradiction|apply P1].
+Qed.
+
+(* a fresh handle *)
+Lemma set_conn_w w p st st' : W st -> (forall i n, get_connptr w st <> Some (Some (i, n))) ->
+  watch_add p w (set_connptr w p st) = Ok st' -> W st'.
+Proof.
+  intros H Hf. assert (U : unreg w st) by (apply W_unreg_null; assumption).
+  apply watch_add_w; [apply set_connptr_W; assumption| |eapply unreg_impls; [apply set_connptr_impls|exact U]].
+  rewrite get_set_connptr, wref_eqb_refl. reflexivity.
+Qed.
+
+Lemma watl_app_new l nd n : sbw (n_sb nd) = [] -> watl (l ++ [nd]) n = [] \/ watl (l ++ [nd]) n = watl l n.
+Proof.
+  intro Hn. unfold watl. rewrite find_node_app. destruct (find_node n l); [right; reflexivity|].
+  cbn [find_node]. destruct (nid_eqb (n_id nd) n); [left; exact Hn|left; reflexivity].
+Qed.
+
+Lemma watl_cons_new l nd n : sbw (n_sb nd) = [] -> watl (nd :: l) n = [] \/ watl (nd :: l) n = watl l n.
+Proof.
+  intro Hn. unfold watl. cbn [find_node]. destruct (nid_eqb (n_id nd) n); [left; exact Hn|right; reflexivity].
+Qed.
+
+Lemma frame_enter_w i st first ph k st1 : W st -> frame_enter i st = Ok (first, ph, k, st1) -> W st1.
+Proof.
+  intros HW. unfold frame_enter. destruct (aget i (impls st)) as [im|] eqn:Hi; [|discriminate].
+  intro E. inversion E; subst.
+  apply (W_upd st); [exact HW| |intro w; left; apply get_connptr_eq; reflexivity].
+  intros j n. rewrite wat_set_impl. destruct (N.eqb_spec j i) as [->|Hne]; [|right; reflexivity].
+  cbn [i_nodes with_nodes]. unfold wat. rewrite Hi. apply watl_app_new. reflexivity.
+Qed.
+
+Lemma impl_insert_w i front sb st n st' : W st -> sbw sb = [] -> impl_insert i front sb st = Ok (n, st') -> W st'.
+Proof.
+  intros HW Hsb. unfold impl_insert. destruct (aget i (impls st)) as [im|] eqn:Hi; [|discriminate].
+  assert (Hgen : forall r st2, impls st2 = impls st -> conns st2 = conns st -> sconns st2 = sconns st -> r_watch r = [] ->
+     W (set_impl i (with_nodes (if front then mkNode (Real (next_nid st)) (mkSB (Some r) (sb_blocked sb)) :: i_nodes im
+                               else i_nodes im ++ [mkNode (Real (next_nid st)) (mkSB (Some r) (sb_blocked sb))]) im) st2)).
+  { intros r st2 Ei Ec Es Hr. apply (W_upd st); [exact HW| |intro w; left; rewrite get_connptr_set_impl; apply get_connptr_eq; assumption].
+    intros j m. rewrite wat_set_impl. destruct (N.eqb_spec j i) as [->|Hne]; [|right; apply wat_impls; exact Ei].
+    cbn [i_nodes with_nodes]. unfold wat. rewrite Hi.
+    destruct front; [apply watl_cons_new|apply watl_app_new]; unfold sbw; cbn [n_sb sb_rep]; exact Hr. }
+  destruct (sb_rep sb) as [r|] eqn:R; intro E; inversion E; subst; apply Hgen; try reflexivity.
+  unfold sbw in Hsb. rewrite R in Hsb. exact Hsb.
+Qed.
+
+(* ------------------------------------------------------------------ *)
+(* Part 3: slot variables do not touch lists or handles                 *)
+
+Lemma rep_delete_keep r st st' : r_watch r = [] -> rep_delete r st = Ok st' -> keep st st'.
+Proof.
+  intros Hw. unfold rep_delete. rewrite Hw. set (st0 := if r_attached r then _ else _).
+  assert (K0 : keep st st0) by (unfold st0; destruct (r_attached r); repeat split).
+  destruct (r_fn r) as [f|].
+  - destruct (unbind_all (r_id r) (f_refs f) st0) as [st1|] eqn:E; cbn [rbind null_watchers]; [|discriminate].
+    intro H. inversion H; subst. eapply keep_trans; [exact K0|eapply unbind_all_keep; eauto].
+  - cbn [rbind null_watchers]. intro H. inversion H; subst. exact K0.
+Qed.
+
+Lemma rep_clone_keep r st r' st' : rep_clone r st = Ok (r', st') -> keep st st' /\ r_watch r' = [].
+Proof.
+  unfold rep_clone. destruct (r_fn r) as [f|].
+  - destruct (bind_all (next_rid st) (f_refs f) (with_next_rid (next_rid st + 1) st)) as [st2|] eqn:E; cbn [rbind]; [|discriminate].
+    intro H. inversion H; subst. split; [|reflexivity]. eapply keep_trans; [|eapply bind_all_keep; eauto]. repeat split.
+  - cbn [rbind]. intro H. inversion H; subst. split; [|reflexivity]. repeat split.
+Qed.
+
+Lemma sb_copy_keep src st sb st' : sb_copy src st = Ok (sb, st') -> keep st st' /\ sbw sb = [].
+Proof.
+  unfold sb_copy. destruct (sb_rep src) as [r|] eqn:R.
+  2:{ intro H. inversion H; subst. split; [apply keep_refl|reflexivity]. }
+  destruct (r_valid r); [|intro H; inversion H; split; [apply keep_refl|reflexivity]].
+  destruct (rep_clone r st) as [[r' st1]|] eqn:E; cbn [rbind]; [|discriminate].
+  intro H. inversion H; subst. destruct (rep_clone_keep _ _ _ _ E) as (K & Hw). split; [exact K|exact Hw].
+Qed.
+
+Lemma sb_move_keep src st sb src' st' : sbw src = [] -> sb_move src st = Ok (sb, src', st') -> keep st st' /\ sbw sb = [].
+Proof.
+  intro Hs. unfold sb_move. unfold sbw in Hs. destruct (sb_rep src) as [r|] eqn:R.
+  2:{ intro H. inversion H; subst. split; [apply keep_refl|reflexivity]. }
+  destruct (r_attached r).
+  - destruct (r_valid r); [|intro H; inversion H; split; [apply keep_refl|reflexivity]].
+    destruct (rep_clone r st) as [[r' st1]|] eqn:E; cbn [rbind]; [|discriminate].
+    intro H. inversion H; subst. destruct (rep_clone_keep _ _ _ _ E) as (K & Hw). split; [exact K|exact Hw].
+  - rewrite Hs. cbn [null_watchers]. intro H. inversion H; subst. split; [apply keep_refl|reflexivity].
+Qed.
+
+Lemma var_sbw st s sb : WFc st -> get_sb (LVar s) st = Some sb -> sbw sb = [].
+Proof.
+  intros Hc G. unfold sbw. destruct (sb_rep sb) as [r|] eqn:R; [|reflexivity].
+  exact (proj2 (var_rep_detached _ _ _ _ (wc_struct _ Hc) G R)).
+Qed.
+
+Lemma delete_rep_with_check_keep d st st' : WFc st -> delete_rep_with_check (LVar d) st = Ok st' -> keep st st'.
+Proof.
+  intros Hc. unfold delete_rep_with_check. destruct (get_sb (LVar d) st) as [sb|] eqn:Hd; [|discriminate].
+  destruct (sb_rep sb) as [r|] eqn:Hrep; [|intro H; inversion H; apply keep_refl].
+  destruct (var_rep_detached _ _ _ _ (wc_struct _ Hc) Hd Hrep) as (Hatt & Hwat).
+  unfold rep_disconnect, get_rep, set_rep. rewrite Hd, Hrep, Hatt. cbn [rbind].
+  set (r0 := r_with_valid false r). set (st1 := set_sb (LVar d) (mkSB (Some r0) (sb_blocked sb)) st).
+  assert (Hc1 : WFc st1).
+  { unfold st1. eapply set_sb_benign_ok; eauto; try reflexivity; [discriminate|split; assumption|apply incl_refl]. }
+  assert (Hd1 : get_sb (LVar d) st1 = Some (mkSB (Some r0) (sb_blocked sb))) by (unfold st1; eapply get_set_sb_same; eauto).
+  destruct (find_rep (r_id r) st1) as [l'|] eqn:Hf; [|intro H; inversion H; subst; apply keep_set_sb_var].
+  destruct (find_rep_var st1 (r_id r) l' r0 Hf) as (s' & ->); [exact (get_sb_in_reps _ _ _ _ Hd1 eq_refl)|reflexivity|].
+  destruct (get_sb (LVar s') st1) as [sb1|] eqn:G1; [|intro H; inversion H; subst; apply keep_set_sb_var].
+  destruct (sb_rep sb1) as [r1|] eqn:G2; [|intro H; inversion H; subst; apply keep_set_sb_var].
+  destruct (var_rep_detached _ _ _ _ (wc_struct _ Hc1) G1 G2) as (_ & Hwat1).
+  intro H. eapply keep_trans; [apply keep_set_sb_var|]. eapply keep_trans; [apply keep_set_sb_var|].
+  eapply rep_delete_keep; eauto.
+Qed.
+
+Lemma sb_assign_keep d s st st' : WFc st -> sb_assign d s st = Ok st' -> keep st st'.
+Proof.
+  intros Hc. unfold sb_assign.
+  destruct (get_sb (LVar d) st) as [dst|] eqn:Hd; [|discriminate].
+  destruct (get_sb (LVar s) st) as [src|] eqn:Hs; [|discriminate].
+  destruct (same_rep src dst); [intro H; inversion H; apply keep_set_sb_var|].
+  destruct (sb_empty src); [apply delete_rep_with_check_keep; exact Hc|].
+  destruct (sb_rep src) as [r|]; [|intro H; inversion H; apply keep_refl].
+  destruct (rep_clone r st) as [[r' st1]|] eqn:E1; cbn [rbind]; [|discriminate].
+  pose proof (proj1 (rep_clone_keep _ _ _ _ E1)) as L1.
+  destruct (sb_rep dst) as [old|] eqn:Ho.
+  - destruct (rep_delete (r_with_attached false old) st1) as [st2|] eqn:E2; cbn [rbind]; [|discriminate].
+    intro H. inversion H; subst. eapply keep_trans; [exact L1|]. eapply keep_trans; [|apply keep_set_sb_var].
+    eapply rep_delete_keep; [|exact E2]. exact (proj2 (var_rep_detached _ _ _ _ (wc_struct _ Hc) Hd Ho)).
+  - cbn [rbind]. intro H. inversion H; subst. eapply keep_trans; [exact L1|apply keep_set_sb_var].
+Qed.
+
+Lemma sb_move_assign_keep d s st st' : WFc st -> sb_move_assign d s st = Ok st' -> keep st st'.
+Proof.
+  intros Hc. unfold sb_move_assign.
+  destruct (get_sb (LVar d) st) as [dst|] eqn:Hd; [|discriminate].
+  destruct (get_sb (LVar s) st) as [src|] eqn:Hs; [|discriminate].
+  destruct (same_rep src dst); [intro H; inversion H; apply keep_set_sb_var|].
+  destruct (sb_empty src); [apply delete_rep_with_check_keep; exact Hc|].
+  destruct (sb_rep src) as [r|] eqn:Hr; [|intro H; inversion H; apply keep_refl].
+  pose proof (proj2 (var_rep_detached _ _ _ _ (wc_struct _ Hc) Hs Hr)) as Hwr.
+  assert (Hfirst : forall x, (if r_attached r
+            then '(r', st1) <- rep_clone r st;; Ok (r', src, st1)
+            else Ok (r_with_watch [] r, sb_none, null_watchers (r_watch r) st)) = Ok x ->
+            keep st (snd x)).
+  { intros [[a b] c]. destruct (r_attached r).
+    - destruct (rep_clone r st) as [[r' st1]|] eqn:E1; cbn [rbind]; [|discriminate].
+      intro H. inversion H; subst. cbn [snd]. exact (proj1 (rep_clone_keep _ _ _ _ E1)).
+    - rewrite Hwr. cbn [null_watchers]. intro H. inversion H; subst. cbn [snd]. apply keep_refl. }
+  destruct (if r_attached r then _ else _) as [[[newrep src'] st1]|]; cbn [rbind]; [|discriminate].
+  pose proof (Hfirst _ eq_refl) as L1. cbn [snd] in L1.
+  destruct (sb_rep dst) as [old|] eqn:Ho.
+  - destruct (rep_delete (r_with_attached false old) (set_sb (LVar s) src' st1)) as [st2|] eqn:E2; cbn [rbind]; [|discriminate].
+    intro H. injection H as <-. eapply keep_trans; [exact L1|]. eapply keep_trans; [apply keep_set_sb_var|].
+    eapply keep_trans; [|apply keep_set_sb_var]. eapply rep_delete_keep; [|exact E2].
+    exact (proj2 (var_rep_detached _ _ _ _ (wc_struct _ Hc) Hd Ho)).
+  - cbn [rbind]. intro H. injection H as <-. eapply keep_trans; [exact L1|].
+    eapply keep_trans; [apply (keep_set_sb_var s src' st1)|apply keep_set_sb_var].
+Qed.
+
+Lemma del_slot_keep s sb st st' : WFc st -> get_sb (LVar s) st = Some sb ->
+  sb_delete sb (with_slots (aset s None (slots st)) st) = Ok st' -> keep st st'.
+Proof.
+  intros Hc Hg. unfold sb_delete. destruct (sb_rep sb) as [r|] eqn:Hr.
+  - destruct (var_rep_detached _ _ _ _ (wc_struct _ Hc) Hg Hr) as (_ & Hw).
+    intro H. eapply keep_trans; [|eapply rep_delete_keep; eauto]. repeat split.
+  - intro H. inversion H; subst. repeat split.
+Qed.
+
+(* ------------------------------------------------------------------ *)
+(* Part 4: the interpreter preserves W                                  *)
+
+Definition out_w {A} (o : outcome A) : Prop :=
+  match o with Done st' _ => W st' | Thrown st' => W st' | Fail _ => True end.
+Definition out_ww {A} (o : outcome A) : Prop :=
+  match o with Done st' _ => WF st' /\ W st' | Thrown st' => WF st' /\ W st' | Fail _ => True end.
+
+Lemma out_ww_of {A} st (o : outcome A) : out_ok st o -> out_w o -> out_ww o.
+Proof. destruct o; cbn; intros [Hwf _] Hy; auto. Qed.
+
+Lemma keep_emit_ev e st : keep st (emit_ev e st).
+Proof. repeat split. Qed.
+
+Lemma W_ev e st : W st -> W (emit_ev e st).
+Proof. apply W_keep. apply keep_emit_ev. Qed.
+
+Lemma WN_of st : WF st -> W st -> WN st.
+Proof. intros H Hw. split; [exact Hw|apply ST_of_WF; exact H]. Qed.
+
+Lemma liftu_w r : (forall st', r = Ok st' -> W st') -> out_w (liftu r).
+Proof. intro H. destruct r; cbn; auto. Qed.
+
+Section Interp.
+  Variable prog : program.
+  Variable rec : callee -> state -> outcome N.
+  Hypothesis rec_ok : forall c st, WF st -> out_ok st (rec c st).
+  Hypothesis rec_w : forall c st, WF st -> W st -> out_w (rec c st).
+
+  Lemma invoke_functor_w f arg st : WF st -> W st -> out_w (invoke_functor rec f arg st).
+  Proof.
+    intros H Hy. unfold invoke_functor. destruct (f_fwd f) as [g|]; [apply rec_w; assumption|].
+    pose proof (rec_w (CScript (f_body f) arg) _ (WF_ev st (EEnter (f_body f) arg) H) (W_ev _ _ Hy)) as Z.
+    destruct (rec (CScript (f_body f) arg) (emit_ev (EEnter (f_body f) arg) st)); cbn [out_w] in *; try apply W_ev; exact Z.
+  Qed.
+
+  Lemma invoke_at_w l arg st : WF st -> W st -> out_w (invoke_at rec l arg st).
+  Proof.
+    intros H Hy. unfold invoke_at. destruct (get_rep l st) as [r|]; [|exact I].
+    destruct (r_fn r); [apply invoke_functor_w; assumption|exact I].
+  Qed.
+
+  Lemma invoke_at_ww l arg st sb : WF st -> W st -> get_sb l st = Some sb -> sb_empty sb = false ->
+    out_ww (invoke_at rec l arg st).
+  Proof.
+    intros H Hy G E. eapply out_ww_of; [eapply (invoke_at_ok rec rec_ok); eauto|apply invoke_at_w; assumption].
+  Qed.
+
+  Lemma with_frame_w {A} i (body : nid -> nid -> nat -> state -> outcome A) st :
+    WF st -> W st ->
+    (forall first ph n st1, WF st1 -> W st1 -> out_ww (body first ph n st1)) ->
+    out_w (with_frame i body st).
+  Proof.
+    intros H Hy Hbody. unfold with_frame.
+    destruct (frame_enter i st) as [[[[first ph] n] st1]|] eqn:E; [|exact I].
+    destruct (aget i (impls st)) as [im|] eqn:Hi; [|unfold frame_enter in E; rewrite Hi in E; discriminate].
+    destruct (frame_enter_ok i im st H Hi) as (first' & ph' & st1' & im1 & E' & W1 & Fr & _).
+    rewrite E in E'. inversion E'; subst first' ph' st1' n. clear E'.
+    pose proof (frame_enter_w _ _ _ _ _ _ Hy E) as Hy1.
+    specialize (Hbody first ph (length (i_nodes im1)) st1 W1 Hy1).
+    assert (Hleave : forall st2, WF st2 -> W st2 -> forall st3, frame_leave i ph st2 = Ok st3 -> W st3).
+    { intros st2 W2 Y2 st3 E3. exact (proj1 (frame_leave_w i ph st2 st3 (WN_of _ W2 Y2) E3)). }
+    destruct (body first ph (length (i_nodes im1)) st1) as [st2 v|st2|e]; cbn [out_ww] in Hbody; [| |exact I].
+    - destruct Hbody as (W2 & Y2). destruct (frame_leave i ph st2) as [st3|] eqn:E3; cbn [lift out_w]; [|exact I].
+      exact (Hleave st2 W2 Y2 st3 E3).
+    - destruct Hbody as (W2 & Y2). destruct (frame_leave i ph st2) as [st3|] eqn:E3; cbn [out_w]; [|exact I].
+      exact (Hleave st2 W2 Y2 st3 E3).
+  Qed.
+
+  Lemma emit_loop_ww i ph arg : forall fuel cur last st, WF st -> W st ->
+    out_ww (emit_loop rec fuel i cur ph arg last st).
+  Proof.
+    induction fuel as [|fuel IH]; intros cur last st H Hy; cbn [emit_loop].
+    - destruct (nid_eqb cur ph); cbn [out_ww]; auto.
+    - destruct (nid_eqb cur ph); [cbn [out_ww]; auto|].
+      destruct (get_sb (LNode i cur) st) as [sb|] eqn:Hsb; [|exact I].
+      assert (Hcont : forall st1 last1, WF st1 -> W st1 ->
+                out_ww (match node_next i cur st1 with
+                        | Err e => Fail e
+                        | Ok None => Fail ErrDangling
+                        | Ok (Some nx) => emit_loop rec fuel i nx ph arg last1 st1
+                        end)).
+      { intros st1 last1 W1 Y1. destruct (node_next i cur st1) as [[nx|]|]; try exact I. apply IH; assumption. }
+      destruct (sb_empty sb || sb_blocked sb) eqn:Hskip; [apply Hcont; assumption|].
+      apply orb_false_elim in Hskip. destruct Hskip as [Hemp _].
+      pose proof (invoke_at_ww (LNode i cur) arg st sb H Hy Hsb Hemp) as Z.
+      destruct (invoke_at rec (LNode i cur) arg st) as [st1 v|st1|e]; cbn [out_ww] in Z; [|exact Z|exact I].
+      apply Hcont; tauto.
+  Qed.
+
+  Lemma cur_deref_ww i arg c st : WF st -> W st -> out_ww (cur_deref rec i arg c st).
+  Proof.
+    intros H Hy. unfold cur_deref. destruct (get_sb (LNode i (c_pos c)) st) as [sb|] eqn:Hsb; [|exact I].
+    destruct (negb (sb_empty sb) && negb (sb_blocked sb) && negb (c_invoked c)) eqn:Hc; [|cbn [out_ww]; auto].
+    apply andb_true_iff in Hc. destruct Hc as [Hc _]. apply andb_true_iff in Hc. destruct Hc as [Hc _].
+    apply negb_true_iff in Hc.
+    pose proof (invoke_at_ww (LNode i (c_pos c)) arg st sb H Hy Hsb Hc) as Z.
+    destruct (invoke_at rec (LNode i (c_pos c)) arg st); exact Z.
+  Qed.
+
+  Lemma acc_walk_ww i arg lastpos z : forall fuel c a st, WF st -> W st ->
+    out_ww (acc_walk rec fuel i arg lastpos z c a st).
+  Proof.
+    induction fuel as [|fuel IH]; intros c a st H Hy; cbn [acc_walk].
+    - destruct (nid_eqb (c_pos c) lastpos); cbn [out_ww]; auto.
+    - destruct (nid_eqb (c_pos c) lastpos); [cbn [out_ww]; auto|].
+      pose proof (cur_deref_ww i arg c st H Hy) as Z.
+      destruct (cur_deref rec i arg c st) as [st1 c1|st1|e]; cbn [out_ww] in Z; [|exact Z|exact I].
+      destruct (cur_inc i c1 st1) as [c2|]; [|exact I].
+      destruct (match z with Some zz => N.ltb zz (c_buf c1) | None => false end); [exact Z|].
+      apply IH; tauto.
+  Qed.
+
+  Lemma acc_walk_rev_ww i arg firstpos : forall fuel c a st, WF st -> W st ->
+    out_ww (acc_walk_rev rec fuel i arg firstpos c a st).
+  Proof.
+    induction fuel as [|fuel IH]; intros c a st H Hy; cbn [acc_walk_rev].
+    - destruct (nid_eqb (c_pos c) firstpos); cbn [out_ww]; auto.
+    - destruct (nid_eqb (c_pos c) firstpos); [cbn [out_ww]; auto|].
+      destruct (cur_dec i c st) as [c1|]; [|exact I].
+      pose proof (cur_deref_ww i arg c1 st H Hy) as Z.
+      destruct (cur_deref rec i arg c1 st) as [st1 c2|st1|e]; cbn [out_ww] in Z; [|exact Z|exact I].
+      apply IH; tauto.
+  Qed.
+
+  Lemma acc_run_ww n i arg fc lc : forall ops cs a st, WF st -> W st ->
+    out_ww (acc_run rec n i arg fc lc ops cs a st).
+  Proof.
+    induction ops as [|o ops IH]; intros cs a st H Hy; cbn [acc_run]; [cbn [out_ww]; auto|].
+    destruct o as [k j|k|k|k|k|k|k z].
+    - destruct (writable k); apply IH; assumption.
+    - destruct (writable k && _); [|apply IH; assumption].
+      destruct (cur_inc i _ st); [apply IH; assumption|exact I].
+    - destruct (writable k && _); [|apply IH; assumption].
+      destruct (cur_dec i _ st); [apply IH; assumption|exact I].
+    - destruct (writable k && _); [|apply IH; assumption].
+      match goal with |- out_ww (match cur_deref rec i arg ?c st with _ => _ end) =>
+        pose proof (cur_deref_ww i arg c st H Hy) as Z; destruct (cur_deref rec i arg c st) as [st1 c1|st1|e] end;
+        cbn [out_ww] in Z; [|exact Z|exact I].
+      apply IH; tauto.
+    - destruct (writable k); [|apply IH; assumption].
+      match goal with |- out_ww (match acc_walk rec n i arg ?lp ?z ?c a st with _ => _ end) =>
+        pose proof (acc_walk_ww i arg lp z n c a st H Hy) as Z; destruct (acc_walk rec n i arg lp z c a st) as [st1 [c1 a1]|st1|e] end;
+        cbn [out_ww] in Z; [|exact Z|exact I].
+      apply IH; tauto.
+    - destruct (writable k); [|apply IH; assumption].
+      match goal with |- out_ww (match acc_walk_rev rec n i arg ?fp ?c a st with _ => _ end) =>
+        pose proof (acc_walk_rev_ww i arg fp n c a st H Hy) as Z; destruct (acc_walk_rev rec n i arg fp c a st) as [st1 [c1 a1]|st1|e] end;
+        cbn [out_ww] in Z; [|exact Z|exact I].
+      apply IH; tauto.
+    - destruct (writable k); [|apply IH; assumption].
+      match goal with |- out_ww (match acc_walk rec n i arg ?lp ?z ?c a st with _ => _ end) =>
+        pose proof (acc_walk_ww i arg lp z n c a st H Hy) as Z; destruct (acc_walk rec n i arg lp z c a st) as [st1 [c1 a1]|st1|e] end;
+        cbn [out_ww] in Z; [|exact Z|exact I].
+      apply IH; tauto.
+  Qed.
+
+  Lemma emit_sig_w g arg st : WF st -> W st -> out_w (emit_sig prog rec g arg st).
+  Proof.
+    intros H Hy. unfold emit_sig. destruct (live_sig g st) as [go|]; [|exact I].
+    destruct (gk_acc (g_kind go)) as [acc|].
+    - destruct (g_impl go) as [i|].
+      + apply with_frame_w; [exact H|exact Hy|]. intros first ph k st1 W1 Y1. apply acc_run_ww; assumption.
+      + destruct (acc_run_noimpl rec arg (match aget acc (p_accs prog) with Some l => l | None => [] end) [] 0 st) as (a' & E).
+        { intros k c Z. discriminate. }
+        rewrite E. exact Hy.
+    - destruct (g_impl go) as [i|]; [|exact Hy].
+      destruct (aget i (impls st)) as [im|]; [|exact I].
+      destruct (i_nodes im); [exact Hy|].
+      apply with_frame_w; [exact H|exact Hy|]. intros first ph k st1 W1 Y1. apply emit_loop_ww; assumption.
+  Qed.
+End Interp.
+
+(* ------------------------------------------------------------------ *)
+(* Part 5: the operations                                               *)
+
+Lemma keep_new_slot_var s rk sb st : keep st (new_slot_var s rk sb st).
+Proof. repeat split. Qed.
+
+Lemma fresh_conn_ptr c st : fresh_conn c st = true -> get_connptr (WC c) st = None.
+Proof. unfold fresh_conn, get_connptr. destruct (aget c (conns st)); [discriminate|reflexivity]. Qed.
+
+Lemma fresh_sconn_ptr k st : fresh_sconn k st = true -> get_connptr (WK k) st = None.
+Proof. unfold fresh_sconn, get_connptr. destruct (aget k (sconns st)); [discriminate|reflexivity]. Qed.
+
+Lemma none_not_some (w : wref) st : get_connptr w st = None -> forall i n, get_connptr w st <> Some (Some (i, n)).
+Proof. intros -> i n. discriminate. Qed.
+
+Lemma W_del_conn c st : W st -> unreg (WC c) st -> W (with_conns (aset c None (conns st)) st).
+Proof.
+  intros H Hu. apply (W_ptr st); [exact H|reflexivity|]. intro w. destruct w as [c'|k'].
+  - destruct (N.eq_dec c' c) as [->|Hne]; [right; exact Hu|left].
+    cbn [get_connptr conns with_conns]. rewrite aget_aset_other by exact Hne. reflexivity.
+  - left. reflexivity.
+Qed.
+
+Lemma W_del_sconn k st : W st -> unreg (WK k) st -> W (with_sconns (aset k None (sconns st)) st).
+Proof.
+  intros H Hu. apply (W_ptr st); [exact H|reflexivity|]. intro w. destruct w as [c'|k'].
+  - left. reflexivity.
+  - destruct (N.eq_dec k' k) as [->|Hne]; [right; exact Hu|left].
+    cbn [get_connptr sconns with_sconns]. rewrite aget_aset_other by exact Hne. reflexivity.
+Qed.
+
+Section WStep.
+  Variable prog : program.
+  Variable rec : callee -> state -> outcome N.
+  Hypothesis rec_ok : forall c st, WF st -> out_ok st (rec c st).
+  Hypothesis rec_w : forall c st, WF st -> W st -> out_w (rec c st).
+
+  Lemma skip_w st : W st -> out_w (skip st).
+  Proof. intro Hy. unfold skip. cbn [out_w]. apply W_ev. exact Hy. Qed.
+
+  Lemma conn_query_w p st : W st -> out_w (conn_query p st).
+  Proof.
+    intro Hy. unfold conn_query. destruct (conn_target p st) as [[[l sb]|]|]; cbn [out_w]; try apply W_ev; auto.
+  Qed.
+
+  Lemma conn_block_w p b st : WN st -> out_w (conn_block p b st).
+  Proof.
+    intro Hn. unfold conn_block. destruct (conn_target p st) as [[[l sb]|]|] eqn:E; cbn [out_w];
+      [apply W_ev|apply W_ev; exact (proj1 Hn)|exact I].
+    apply (proj1 (WN_set_sb l sb (mkSB (sb_rep sb) b) st Hn (conn_target_inv _ _ _ _ E) (or_intror eq_refl))).
+  Qed.
+
+  Lemma step_track_w o st : WF st -> W st ->
+    match o with
+    | OTNew _ | OTDel _ | OTAssign _ _ | OTMoveAssign _ _ | OTNotify _ | OTNewShared _ | OTRelease _ =>
+        out_w (step prog rec o st)
+    | _ => True
+    end.
+  Proof.
+    intros H Hy. pose proof (WN_of _ H Hy) as Hn.
+    destruct o as [t|t|td ts|td ts|t|t|t|s rk body refs|s rk|sn so|sn so|sd ss|sd ss|s arg catch|s b|s|s|s|g k|gn go|gn go|gd gs|gd gs|g|g s c front mv|g arg catch|g|g b|g|s g|c|cn co|cd cs|c|c b|c|c|k c|k|k c|kn ko|kd ks|k1 k2|k c|k|k b|k|k| | ]; try exact I; cbn [step].
+    - destruct (fresh_track t st && N.ltb t 1000); [|apply skip_w; exact Hy].
+      cbn [out_w]. eapply W_keep; [|exact Hy]. repeat split.
+    - destruct (live_track t st); [|apply skip_w; exact Hy].
+      destruct (N.ltb t 1000 && negb (is_shared t st)); [|apply skip_w; exact Hy].
+      apply liftu_w. intros st' E. destruct (track_notify t st) as [st1|] eqn:E1; cbn [rbind] in E; [|discriminate].
+      inversion E; subst st'. eapply W_keep; [|exact (proj1 (track_notify_w _ _ _ Hn E1))]. repeat split.
+    - destruct (prog_track td st); [|apply skip_w; exact Hy].
+      destruct (prog_track ts st); [|apply skip_w; exact Hy].
+      destruct (N.eqb td ts); [exact Hy|]. apply liftu_w. intros st' E. exact (proj1 (track_notify_w _ _ _ Hn E)).
+    - destruct (prog_track td st); [|apply skip_w; exact Hy].
+      destruct (prog_track ts st); [|apply skip_w; exact Hy].
+      destruct (N.eqb td ts); [exact Hy|]. apply liftu_w. intros st' E.
+      destruct (track_notify td st) as [st1|] eqn:E1; cbn [rbind] in E; [|discriminate].
+      exact (proj1 (track_notify_w _ _ _ (track_notify_w _ _ _ Hn E1) E)).
+    - destruct (prog_track t st); [|apply skip_w; exact Hy].
+      apply liftu_w. intros st' E. exact (proj1 (track_notify_w _ _ _ Hn E)).
+    - destruct (fresh_track t st && N.ltb t 1000); [|apply skip_w; exact Hy].
+      cbn [out_w]. eapply W_keep; [|exact Hy]. repeat split.
+    - destruct (live_track t st); [|apply skip_w; exact Hy].
+      destruct (is_shared t st && negb (is_released t st)); [|apply skip_w; exact Hy].
+      cbn [out_w]. eapply W_keep; [|exact Hy]. repeat split.
+  Qed.
+
+  Lemma step_slot_w o st : WF st -> W st ->
+    match o with
+    | OSNew _ _ _ _ | OSEmpty _ _ | OSCopy _ _ | OSMove _ _ | OSAssign _ _ | OSMoveAssign _ _
+    | OSCall _ _ _ | OSBlock _ _ | OSDisc _ | OSDel _ | OSQuery _ => out_w (step prog rec o st)
+    | _ => True
+    end.
+  Proof.
+    intros H Hy. pose proof (wf_c _ H) as Hc. pose proof (WN_of _ H Hy) as Hn.
+    destruct o as [t|t|td ts|td ts|t|t|t|s rk body refs|s rk|sn so|sn so|sd ss|sd ss|s arg catch|s b|s|s|s|g k|gn go|gn go|gd gs|gd gs|g|g s c front mv|g arg catch|g|g b|g|s g|c|cn co|cd cs|c|c b|c|c|k c|k|k c|kn ko|kd ks|k1 k2|k c|k|k b|k|k| | ]; try exact I; cbn [step].
+    - (* OSNew *)
+      destruct (fresh_slot s st && _ && _); [|apply skip_w; exact Hy].
+      destruct (bind_all (next_rid st) refs (with_next_rid (next_rid st + 1) st)) as [st2|] eqn:E; [|exact I].
+      cbn [out_w]. eapply W_keep; [|exact Hy]. eapply keep_trans; [|apply keep_new_slot_var].
+      eapply keep_trans; [|eapply bind_all_keep; eauto]. repeat split.
+    - (* OSEmpty *)
+      destruct (fresh_slot s st); [|apply skip_w; exact Hy]. cbn [out_w]. eapply W_keep; [apply keep_new_slot_var|exact Hy].
+    - (* OSCopy *)
+      destruct (live_slot so st) as [src|]; [|apply skip_w; exact Hy].
+      destruct (fresh_slot sn st); [|apply skip_w; exact Hy].
+      destruct (sb_copy src st) as [[sb st1]|] eqn:E; [|exact I].
+      cbn [out_w]. eapply W_keep; [|exact Hy]. eapply keep_trans; [exact (proj1 (sb_copy_keep _ _ _ _ E))|apply keep_new_slot_var].
+    - (* OSMove *)
+      unfold live_slot. destruct (get_sb (LVar so) st) as [src|] eqn:Hsrc; [|apply skip_w; exact Hy].
+      destruct (fresh_slot sn st); [|apply skip_w; exact Hy].
+      destruct (sb_move src st) as [[[sb src'] st1]|] eqn:E; [|exact I].
+      cbn [out_w]. eapply W_keep; [|exact Hy].
+      eapply keep_trans; [exact (proj1 (sb_move_keep _ _ _ _ _ (var_sbw _ _ _ Hc Hsrc) E))|].
+      eapply keep_trans; [apply (keep_set_sb_var so src' st1)|apply keep_new_slot_var].
+    - (* OSAssign *)
+      destruct (live_slot sd st); [|apply skip_w; exact Hy].
+      destruct (live_slot ss st); [|apply skip_w; exact Hy].
+      destruct (rkind_eqb _ _); [|apply skip_w; exact Hy].
+      apply liftu_w. intros st' E. eapply W_keep; [eapply sb_assign_keep; eauto|exact Hy].
+    - (* OSMoveAssign *)
+      destruct (live_slot sd st); [|apply skip_w; exact Hy].
+      destruct (live_slot ss st); [|apply skip_w; exact Hy].
+      destruct (rkind_eqb _ _); [|apply skip_w; exact Hy].
+      apply liftu_w. intros st' E. eapply W_keep; [eapply sb_move_assign_keep; eauto|exact Hy].
+    - (* OSCall *)
+      destruct (live_slot s st) as [sb|]; [|apply skip_w; exact Hy].
+      destruct (negb (sb_empty sb) && negb (sb_blocked sb)); [|cbn [out_w]; apply W_ev; exact Hy].
+      pose proof (invoke_at_w rec rec_w (LVar s) arg st H Hy) as Z.
+      destruct (invoke_at rec (LVar s) arg st) as [st1 v|st1|e]; cbn [out_w] in *; [apply W_ev; exact Z| |exact I].
+      destruct catch; cbn [out_w]; [apply W_ev|]; exact Z.
+    - (* OSBlock *)
+      destruct (live_slot s st) as [sb|]; [|apply skip_w; exact Hy].
+      cbn [out_w]. apply W_ev. eapply W_keep; [apply keep_set_sb_var|exact Hy].
+    - (* OSDisc *)
+      destruct (live_slot s st); [|apply skip_w; exact Hy].
+      apply liftu_w. intros st' E. exact (proj1 (rep_disconnect_w _ _ _ Hn E)).
+    - (* OSDel *)
+      unfold live_slot. destruct (get_sb (LVar s) st) as [sb|] eqn:Hsb; [|apply skip_w; exact Hy].
+      apply liftu_w. intros st' E. eapply W_keep; [eapply del_slot_keep; eauto|exact Hy].
+    - (* OSQuery *)
+      destruct (live_slot s st); [|apply skip_w; exact Hy]. cbn [out_w]. apply W_ev. exact Hy.
+  Qed.
+
+  Lemma sig_destroy_w g go st st' : WN st -> sig_destroy g go st = Ok st' -> WN st'.
+  Proof.
+    intros Hn. unfold sig_destroy.
+    assert (Hmid : forall st1, (if gk_track (g_kind go)
+                      then st1 <- track_notify (trackable_of_sig g) st ;;
+                           Ok (with_tracks (aset (trackable_of_sig g) None (tracks st1)) st1)
+                      else Ok st) = Ok st1 -> WN st1).
+    { intros st1. destruct (gk_track (g_kind go)); [|intro E; inversion E; subst; exact Hn].
+      destruct (track_notify (trackable_of_sig g) st) as [sta|] eqn:Ea; cbn [rbind]; [|discriminate].
+      intro E. inversion E; subst. eapply WN_keep; [|exact (track_notify_w _ _ _ Hn Ea)]. repeat split. }
+    destruct (if gk_track (g_kind go) then _ else _) as [st1|]; cbn [rbind]; [|discriminate].
+    pose proof (Hmid st1 eq_refl) as H1.
+    assert (H2 : WN (with_sigs (aset g None (sigs st1)) st1)) by (eapply WN_keep; [|exact H1]; repeat split).
+    destruct (g_impl go) as [i|]; [apply release_check_w; exact H2|intro E; inversion E; subst; exact H2].
+  Qed.
+
+  Lemma step_sig_w o st : WF st -> W st ->
+    match o with
+    | OGNew _ _ | OGCopy _ _ | OGMove _ _ | OGAssign _ _ | OGMoveAssign _ _ | OGDel _
+    | OGEmit _ _ _ | OGClear _ | OGBlock _ _ | OGQuery _ | OGMakeSlot _ _ => out_w (step prog rec o st)
+    | _ => True
+    end.
+  Proof.
+    intros H Hy. pose proof (WN_of _ H Hy) as Hn.
+    destruct o as [t|t|td ts|td ts|t|t|t|s rk body refs|s rk|sn so|sn so|sd ss|sd ss|s arg catch|s b|s|s|s|g k|gn go|gn go|gd gs|gd gs|g|g s c front mv|g arg catch|g|g b|g|s g|c|cn co|cd cs|c|c b|c|c|k c|k|k c|kn ko|kd ks|k1 k2|k c|k|k b|k|k| | ]; try exact I; cbn [step].
+    - (* OGNew *)
+      destruct (fresh_sig g st && _); [|apply skip_w; exact Hy].
+      cbn [out_w]. destruct (gk_track k); (eapply W_keep; [|exact Hy]; repeat split).
+    - (* OGCopy *)
+      destruct (live_sig go st) as [src|]; [|apply skip_w; exact Hy].
+      destruct (fresh_sig gn st); [|apply skip_w; exact Hy].
+      destruct (ensure_impl go src st) as [i st1] eqn:E.
+      pose proof (ensure_impl_w _ _ _ _ _ Hn E) as H1. cbn [out_w].
+      destruct (gk_track (g_kind src)); (eapply W_keep; [|exact (proj1 H1)]; repeat split).
+    - (* OGMove *)
+      destruct (live_sig go st) as [src|]; [|apply skip_w; exact Hy].
+      destruct (fresh_sig gn st && _); [|apply skip_w; exact Hy].
+      destruct (gk_track (g_kind src)).
+      + apply liftu_w. intros st' E. refine (proj1 (track_notify_w _ _ _ _ E)).
+        eapply WN_keep; [|exact Hn]. repeat split.
+      + cbn [out_w]. eapply W_keep; [|exact Hy]. repeat split.
+    - (* OGAssign *)
+      destruct (live_sig gd st) as [dst|]; [|apply skip_w; exact Hy].
+      destruct (live_sig gs st) as [src|]; [|apply skip_w; exact Hy].
+      destruct (same_gkind (g_kind dst) (g_kind src)); [|apply skip_w; exact Hy].
+      destruct (match g_impl dst with Some a => match g_impl src with Some b => N.eqb a b | None => false end | None => false end);
+        [exact Hy|].
+      destruct (ensure_impl gs src st) as [i st1] eqn:E.
+      pose proof (ensure_impl_w _ _ _ _ _ Hn E) as H1.
+      assert (H2 : WN (with_sigs (aset gd (Some (mkSig (g_kind dst) (Some i))) (sigs st1)) st1))
+        by (eapply WN_keep; [|exact H1]; repeat split).
+      destruct (g_impl dst) as [old|].
+      + apply liftu_w. intros st' E'. exact (proj1 (release_check_w _ _ _ H2 E')).
+      + exact (proj1 H2).
+    - (* OGMoveAssign *)
+      destruct (live_sig gd st) as [dst|]; [|apply skip_w; exact Hy].
+      destruct (live_sig gs st) as [src|]; [|apply skip_w; exact Hy].
+      destruct (same_gkind (g_kind dst) (g_kind src) && _); [|apply skip_w; exact Hy].
+      destruct (match g_impl dst with
+                | Some a => match g_impl src with Some b => N.eqb a b | None => false end
+                | None => match g_impl src with Some _ => false | None => true end
+                end); [exact Hy|].
+      set (st1 := with_sigs (aset gd (Some (mkSig (g_kind dst) (g_impl src)))
+                     (aset gs (Some (mkSig (g_kind src) None)) (sigs st))) st).
+      assert (H1 : WN st1) by (eapply WN_keep; [|exact Hn]; repeat split).
+      assert (Hrel : forall st2, match g_impl dst with Some old => release_check old st1 | None => Ok st1 end = Ok st2 -> WN st2).
+      { intros st2. destruct (g_impl dst) as [old|]; [apply release_check_w; exact H1|intro E; inversion E; subst; exact H1]. }
+      destruct (match g_impl dst with Some old => release_check old st1 | None => Ok st1 end) as [st2|]; [|exact I].
+      pose proof (Hrel st2 eq_refl) as H2.
+      destruct (gk_track (g_kind src) && _).
+      + apply liftu_w. intros st' E. exact (proj1 (track_notify_w _ _ _ H2 E)).
+      + exact (proj1 H2).
+    - (* OGDel *)
+      destruct (live_sig g st) as [go|]; [|apply skip_w; exact Hy].
+      apply liftu_w. intros st' E. exact (proj1 (sig_destroy_w _ _ _ _ Hn E)).
+    - (* OGEmit *)
+      destruct (live_sig g st) as [go|]; [|apply skip_w; exact Hy].
+      pose proof (emit_sig_w prog rec rec_ok rec_w g arg st H Hy) as Z.
+      destruct (emit_sig prog rec g arg st) as [st1 v|st1|e]; cbn [out_w] in *; [apply W_ev; exact Z| |exact I].
+      destruct catch; cbn [out_w]; [apply W_ev|]; exact Z.
+    - (* OGClear *)
+      destruct (live_sig g st) as [go|]; [|apply skip_w; exact Hy].
+      destruct (g_impl go) as [i|]; [|exact Hy].
+      apply liftu_w. intros st' E. exact (proj1 (impl_clear_w _ _ _ Hn E)).
+    - (* OGBlock *)
+      destruct (live_sig g st) as [go|]; [|apply skip_w; exact Hy].
+      destruct (g_impl go) as [i|]; [|exact Hy].
+      apply liftu_w. intros st' E. exact (proj1 (block_all_w _ _ _ _ Hn E)).
+    - (* OGQuery *)
+      destruct (live_sig g st) as [go|]; [|apply skip_w; exact Hy].
+      destruct (g_impl go) as [i|]; [|cbn [out_w]; apply W_ev; exact Hy].
+      destruct (aget i (impls st)); [cbn [out_w]; apply W_ev; exact Hy|exact I].
+    - (* OGMakeSlot *)
+      destruct (live_sig g st) as [go|]; [|apply skip_w; exact Hy].
+      destruct (fresh_slot s st && _); [|apply skip_w; exact Hy].
+      destruct (bind_all _ _ _) as [st2|] eqn:E; [|exact I].
+      cbn [out_w]. eapply W_keep; [|exact Hy]. eapply keep_trans; [|apply keep_new_slot_var].
+      eapply keep_trans; [|eapply bind_all_keep; eauto]. repeat split.
+  Qed.
+
+  Lemma step_conn_w o st : WF st -> W st ->
+    match o with
+    | OCEmpty _ | OCCopy _ _ | OCAssign _ _ | OCDisc _ | OCBlock _ _ | OCDel _ | OCQuery _
+    | OKNew _ _ | OKEmpty _ | OKAssign _ _ | OKMove _ _ | OKMoveAssign _ _ | OKSwap _ _ | OKRelease _ _
+    | OKDisc _ | OKBlock _ _ | OKDel _ | OKQuery _ => out_w (step prog rec o st)
+    | _ => True
+    end.
+  Proof.
+    intros H Hy. pose proof (WN_of _ H Hy) as Hn.
+    destruct o as [t|t|td ts|td ts|t|t|t|s rk body refs|s rk|sn so|sn so|sd ss|sd ss|s arg catch|s b|s|s|s|g k|gn go|gn go|gd gs|gd gs|g|g s c front mv|g arg catch|g|g b|g|s g|c|cn co|cd cs|c|c b|c|c|k c|k|k c|kn ko|kd ks|k1 k2|k c|k|k b|k|k| | ]; try exact I; cbn [step].
+    - (* OCEmpty *)
+      destruct (fresh_conn c st) eqn:Hf; [|apply skip_w; exact Hy]. cbn [out_w].
+      apply set_connptr_W; [exact Hy|]. apply W_unreg_null; [exact Hy|]. apply none_not_some. apply fresh_conn_ptr. exact Hf.
+    - (* OCCopy *)
+      destruct (get_connptr (WC co) st) as [p|]; [|apply skip_w; exact Hy].
+      destruct (fresh_conn cn st) eqn:Hf; [|apply skip_w; exact Hy].
+      apply liftu_w. intros st' E. eapply set_conn_w; [exact Hy| |exact E]. apply none_not_some. apply fresh_conn_ptr. exact Hf.
+    - (* OCAssign *)
+      destruct (get_connptr (WC cd) st) as [pd|]; [|apply skip_w; exact Hy].
+      destruct (get_connptr (WC cs) st) as [p|]; [|apply skip_w; exact Hy].
+      apply liftu_w. intros st' E. exact (proj1 (conn_set_w _ _ _ _ Hy E)).
+    - (* OCDisc *)
+      destruct (get_connptr (WC c) st) as [p|]; [|apply skip_w; exact Hy].
+      apply liftu_w. intros st' E. exact (proj1 (conn_disconnect_w _ _ _ Hn E)).
+    - (* OCBlock *)
+      destruct (get_connptr (WC c) st) as [p|]; [|apply skip_w; exact Hy]. apply conn_block_w. exact Hn.
+    - (* OCDel *)
+      destruct (get_connptr (WC c) st) as [p|] eqn:Hp; [|apply skip_w; exact Hy].
+      apply liftu_w. intros st' E. destruct (watch_remove p (WC c) st) as [st1|] eqn:E1; cbn [rbind] in E; [|discriminate].
+      inversion E; subst st'. destruct (watch_remove_w _ _ _ _ Hy Hp E1) as (H1 & U1 & _).
+      apply W_del_conn; assumption.
+    - (* OCQuery *)
+      destruct (get_connptr (WC c) st) as [p|]; [|apply skip_w; exact Hy]. apply conn_query_w. exact Hy.
+    - (* OKNew *)
+      destruct (get_connptr (WC c) st) as [p|]; [|apply skip_w; exact Hy].
+      destruct (fresh_sconn k st) eqn:Hf; [|apply skip_w; exact Hy].
+      apply liftu_w. intros st' E. eapply set_conn_w; [exact Hy| |exact E]. apply none_not_some. apply fresh_sconn_ptr. exact Hf.
+    - (* OKEmpty *)
+      destruct (fresh_sconn k st) eqn:Hf; [|apply skip_w; exact Hy]. cbn [out_w].
+      apply set_connptr_W; [exact Hy|]. apply W_unreg_null; [exact Hy|]. apply none_not_some. apply fresh_sconn_ptr. exact Hf.
+    - (* OKAssign *)
+      destruct (get_connptr (WK k) st) as [old|]; [|apply skip_w; exact Hy].
+      destruct (get_connptr (WC c) st) as [pc|]; [|apply skip_w; exact Hy].
+      apply liftu_w. intros st' E. destruct (conn_disconnect old st) as [st1|] eqn:E1; cbn [rbind] in E; [|discriminate].
+      pose proof (conn_disconnect_w _ _ _ Hn E1) as H1.
+      destruct (get_connptr (WK k) st1); [|discriminate]. destruct (get_connptr (WC c) st1); [|discriminate].
+      exact (proj1 (conn_set_w _ _ _ _ (proj1 H1) E)).
+    - (* OKMove *)
+      destruct (get_connptr (WK ko) st) as [p|] eqn:Hp; [|apply skip_w; exact Hy].
+      destruct (fresh_sconn kn st) eqn:Hf; [|apply skip_w; exact Hy].
+      apply liftu_w. intros st' E. destruct (conn_set (WK ko) None st) as [st1|] eqn:E1; cbn [rbind] in E; [|discriminate].
+      destruct (conn_set_w _ _ _ _ Hy E1) as (H1 & P1).
+      pose proof (fresh_sconn_ptr _ _ Hf) as Hfn.
+      eapply set_conn_w; [exact H1| |exact E]. apply none_not_some. rewrite P1; [exact Hfn|].
+      intro Z. inversion Z; subst. rewrite Hp in Hfn. discriminate.
+    - (* OKMoveAssign *)
+      destruct (get_connptr (WK kd) st) as [old|]; [|apply skip_w; exact Hy].
+      destruct (get_connptr (WK ks) st) as [ps|]; [|apply skip_w; exact Hy].
+      destruct (N.eqb kd ks); [apply skip_w; exact Hy|].
+      apply liftu_w. intros st' E. destruct (conn_disconnect old st) as [st1|] eqn:E1; cbn [rbind] in E; [|discriminate].
+      pose proof (conn_disconnect_w _ _ _ Hn E1) as H1.
+      destruct (get_connptr (WK ks) st1) as [p|]; [|discriminate].
+      destruct (conn_set (WK ks) None st1) as [st2|] eqn:E2; cbn [rbind] in E; [|discriminate].
+      exact (proj1 (conn_set_w _ _ _ _ (proj1 (conn_set_w _ _ _ _ (proj1 H1) E2)) E)).
+    - (* OKSwap *)
+      destruct (get_connptr (WK k1) st) as [p1|]; [|apply skip_w; exact Hy].
+      destruct (get_connptr (WK k2) st) as [p2|]; [|apply skip_w; exact Hy].
+      destruct (N.eqb k1 k2); [apply skip_w; exact Hy|].
+      apply liftu_w. intros st' E. destruct (conn_set (WK k1) p2 st) as [st1|] eqn:E1; cbn [rbind] in E; [|discriminate].
+      exact (proj1 (conn_set_w _ _ _ _ (proj1 (conn_set_w _ _ _ _ Hy E1)) E)).
+    - (* OKRelease *)
+      destruct (get_connptr (WK k) st) as [p|]; [|apply skip_w; exact Hy].
+      destruct (fresh_conn c st) eqn:Hf; [|apply skip_w; exact Hy].
+      apply liftu_w. intros st' E. destruct (conn_set (WK k) None st) as [st1|] eqn:E1; cbn [rbind] in E; [|discriminate].
+      destruct (conn_set_w _ _ _ _ Hy E1) as (H1 & P1).
+      eapply set_conn_w; [exact H1| |exact E]. apply none_not_some. rewrite P1; [apply fresh_conn_ptr; exact Hf|discriminate].
+    - (* OKDisc *)
+      destruct (get_connptr (WK k) st) as [p|]; [|apply skip_w; exact Hy].
+      apply liftu_w. intros st' E. exact (proj1 (conn_disconnect_w _ _ _ Hn E)).
+    - (* OKBlock *)
+      destruct (get_connptr (WK k) st) as [p|]; [|apply skip_w; exact Hy]. apply conn_block_w. exact Hn.
+    - (* OKDel *)
+      destruct (get_connptr (WK k) st) as [p|]; [|apply skip_w; exact Hy].
+      apply liftu_w. intros st' E. destruct (conn_disconnect p st) as [st1|] eqn:E1; cbn [rbind] in E; [|discriminate].
+      pose proof (conn_disconnect_w _ _ _ Hn E1) as H1.
+      destruct (get_connptr (WK k) st1) as [p1|] eqn:Hp1; [|discriminate].
+      destruct (watch_remove p1 (WK k) st1) as [st2|] eqn:E2; cbn [rbind] in E; [|discriminate].
+      inversion E; subst st'. destruct (watch_remove_w _ _ _ _ (proj1 H1) Hp1 E2) as (H2 & U2 & _).
+      apply W_del_sconn; assumption.
+    - (* OKQuery *)
+      destruct (get_connptr (WK k) st) as [p|]; [|apply skip_w; exact Hy]. apply conn_query_w. exact Hy.
+  Qed.
+
+  Lemma step_connect_w g s c front mv st : WF st -> W st -> out_w (step prog rec (OGConnect g s c front mv) st).
+  Proof.
+    intros H Hy. pose proof (WN_of _ H Hy) as Hn. cbn [step].
+    destruct (live_sig g st) as [go|] eqn:Hl; [|apply skip_w; exact Hy].
+    unfold live_slot. destruct (get_sb (LVar s) st) as [src|] eqn:Hsrc; [|apply skip_w; exact Hy].
+    destruct (rkind_eqb _ _); [|apply skip_w; exact Hy].
+    destruct (ensure_impl g go st) as [i st1] eqn:E.
+    pose proof (ensure_impl_w _ _ _ _ _ Hn E) as H1.
+    pose proof (var_sbw _ _ _ (wf_c _ H) Hsrc) as Hsw.
+    destruct (if mv then sb_move src st1 else '(sb, st2) <- sb_copy src st1 ;; Ok (sb, src, st2)) as [[[sb src'] st2]|] eqn:E2; [|exact I].
+    assert (L2 : keep st1 st2 /\ sbw sb = []).
+    { destruct mv; [eapply sb_move_keep; eauto|].
+      destruct (sb_copy src st1) as [[sb0 st20]|] eqn:E3; cbn [rbind] in E2; [|discriminate].
+      inversion E2; subst. eapply sb_copy_keep; eauto. }
+    destruct L2 as (L2 & Hsb).
+    assert (Y3 : W (set_sb (LVar s) src' st2)).
+    { eapply W_keep; [apply keep_set_sb_var|]. eapply W_keep; [exact L2|exact (proj1 H1)]. }
+    destruct (impl_insert i front sb (set_sb (LVar s) src' st2)) as [[n st4]|] eqn:E4; [|exact I].
+    pose proof (impl_insert_w _ _ _ _ _ _ Y3 Hsb E4) as Y4.
+    destruct c as [cv|]; [|exact Y4].
+    destruct (fresh_conn cv st4) eqn:Hf.
+    - apply liftu_w. intros st' E'. eapply set_conn_w; [exact Y4| |exact E']. apply none_not_some. apply fresh_conn_ptr. exact Hf.
+    - destruct (get_connptr (WC cv) st4); [|exact Y4]. apply liftu_w. intros st' E'. exact (proj1 (conn_set_w _ _ _ _ Y4 E')).
+  Qed.
+
+  Theorem step_w o st : WF st -> W st -> out_w (step prog rec o st).
+  Proof.
+    intros H Hy.
+    pose proof (step_track_w o st H Hy) as X1. pose proof (step_slot_w o st H Hy) as X2.
+    pose proof (step_sig_w o st H Hy) as X3. pose proof (step_conn_w o st H Hy) as X4.
+    destruct o; try exact X1; try exact X2; try exact X3; try exact X4.
+    - apply step_connect_w; assumption.
+    - cbn [step out_w]. apply W_ev. exact Hy.
+    - cbn [step out_w]. exact Hy.
+  Qed.
+
+  Lemma gc_w : forall fuel st st', WN st -> gc prog fuel st = Ok st' -> WN st'.
+  Proof.
+    induction fuel as [|fuel IH]; intros st st' Hn; cbn [gc].
+    - destruct (find_orphan prog (shared st) st); [discriminate|]. intro E. inversion E; subst. exact Hn.
+    - destruct (find_orphan prog (shared st) st) as [t|]; [|intro E; inversion E; subst; exact Hn].
+      destruct (track_notify t st) as [st1|] eqn:E1; cbn [rbind]; [|discriminate].
+      apply IH. eapply WN_keep; [|exact (track_notify_w _ _ _ Hn E1)]. repeat split.
+  Qed.
+
+  Lemma gc_shared_w st st' : WF st -> W st -> gc_shared prog st = Ok st' -> W st'.
+  Proof. intros H Hy E. exact (proj1 (gc_w _ _ _ (WN_of _ H Hy) E)). Qed.
+
+  Lemma run_ops_w ops : forall st, WF st -> W st -> out_w (run_ops prog rec ops st).
+  Proof.
+    induction ops as [|o ops IH]; intros st H Hy; cbn [run_ops]; [exact Hy|].
+    pose proof (step_ok prog rec rec_ok o st H) as Z. pose proof (step_w o st H Hy) as Zy.
+    destruct (step prog rec o st) as [st1 u|st1|e]; cbn [out_ok out_w] in *; [|exact Zy|exact I].
+    destruct (gc_shared_ok prog st1 (proj1 Z)) as (st2 & E2 & G2). rewrite E2.
+    apply IH; [exact (proj1 G2)|eapply gc_shared_w; [exact (proj1 Z)|exact Zy|exact E2]].
+  Qed.
+
+  Lemma run_callee_w c st : WF st -> W st -> out_w (run_callee prog rec c st).
+  Proof.
+    intros H Hy. destruct c as [b arg|g arg]; cbn [run_callee].
+    - destruct (aget b (p_scripts prog)) as [[ops rs]|]; [|exact Hy].
+      pose proof (run_ops_w ops st H Hy) as Z. destruct (run_ops prog rec ops st); exact Z.
+    - apply (emit_sig_w prog rec rec_ok rec_w); assumption.
+  Qed.
+End WStep.
+
+Lemma run_callee_fuel_w prog fuel : forall c st, WF st -> W st -> out_w (run_callee_fuel prog fuel c st).
+Proof.
+  induction fuel as [|fuel IH]; intros c st H Hy; cbn [run_callee_fuel]; [exact I|].
+  apply run_callee_w; [apply run_callee_fuel_ok|exact IH|exact H|exact Hy].
+Qed.
+
+Lemma W_st0 : W st0.
+Proof. intros i n. split; [constructor|intros w []]. Qed.
+
+Theorem run_top_w : forall p fuel ops st st', WF_top st -> W st -> run_top p fuel ops st = Ok st' -> W st'.
+Proof.
+  intros p fuel ops. induction ops as [|o ops IH]; intros st st' [H Q] Hy; cbn [run_top]; [intro E; inversion E; subst; exact Hy|].
+  pose proof (step_ok p (run_callee_fuel p fuel) (run_callee_fuel_ok p fuel) o st H) as Z.
+  pose proof (step_w p (run_callee_fuel p fuel) (run_callee_fuel_ok p fuel) (run_callee_fuel_w p fuel) o st H Hy) as Zy.
+  destruct (step p (run_callee_fuel p fuel) o st) as [st1 u|st1|e]; cbn [out_ok out_w] in Z, Zy; [| |discriminate].
+  - destruct (gc_shared_ok p st1 (proj1 Z)) as (st2 & E2 & G2). rewrite E2. cbn [rbind].
+    assert (G : Guar st st2) by (eapply Guar_trans; eauto).
+    apply IH; [split; [exact (proj1 G)|eapply Guar_quiescent; eauto]|].
+    eapply gc_shared_w; [exact (proj1 Z)|exact Zy|exact E2].
+  - assert (G1 : Guar st (emit_ev EExn st1)) by (eapply Guar_sim_r; [apply sim_emit_ev|exact Z]).
+    destruct (gc_shared_ok p (emit_ev EExn st1) (proj1 G1)) as (st2 & E2 & G2). rewrite E2. cbn [rbind].
+    assert (G : Guar st st2) by (eapply Guar_trans; eauto).
+    apply IH; [split; [exact (proj1 G)|eapply Guar_quiescent; eauto]|].
+    eapply gc_shared_w; [exact (proj1 G1)|apply W_ev; exact Zy|exact E2].
+Qed.
+
+(* ------------------------------------------------------------------ *)
+(* Part 6: the statements                                               *)
+
+Theorem watch_exact_reachable : S_watch_exact.
+Proof.
+  intros p fuel st (ops & E) i im nd r w Hi Hin Hr Hw.
+  pose proof (run_top_safe p fuel ops st0 WF_top_st0) as Z. rewrite E in Z.
+  pose proof (run_top_w p fuel ops st0 st WF_top_st0 W_st0 E) as HW.
+  destruct Z as (Hwf & _).
+  assert (Hwat : wat st i (n_id nd) = r_watch r).
+  { unfold wat, watl. rewrite Hi. rewrite (find_node_in_nodup _ _ (proj2 (ST_of_WF _ Hwf) i im Hi) Hin).
+    unfold sbw. rewrite Hr. reflexivity. }
+  unfold conn_ptr. rewrite (proj2 (HW i (n_id nd)) w); [reflexivity|rewrite Hwat; exact Hw].
+Qed.
+
+(* and at most once *)
+Theorem watch_nodup_reachable : forall p fuel st, reachable p fuel st ->
+  forall i im nd r, aget i (impls st) = Some im -> In nd (i_nodes im) -> sb_rep (n_sb nd) = Some r -> NoDup (r_watch r).
+Proof.
+  intros p fuel st (ops & E) i im nd r Hi Hin Hr.
+  pose proof (run_top_safe p fuel ops st0 WF_top_st0) as Z. rewrite E in Z.
+  pose proof (run_top_w p fuel ops st0 st WF_top_st0 W_st0 E) as HW.
+  destruct Z as (Hwf & _).
+  assert (Hwat : wat st i (n_id nd) = r_watch r).
+  { unfold wat, watl. rewrite Hi. rewrite (find_node_in_nodup _ _ (proj2 (ST_of_WF _ Hwf) i im Hi) Hin).
+    unfold sbw. rewrite Hr. reflexivity. }
+  rewrite <- Hwat. exact (proj1 (HW i (n_id nd))).
+Qed.
+
+Theorem scoped_assign_disconnects_old_reachable : S_scoped_assign_disconnects_old_reachable.
+Proof.
+  intros p fuel st Hr prog rec k c st' i n im pc Hk Hc Hne Hi Hstep.
+  destruct (quiescent_lists p fuel st Hr) as (HT & Hatt & _ & _).
+  pose proof (watch_exact_reachable p fuel st Hr) as Hex.
+  destruct (wf_conn_target st (WK k) i n (proj1 HT) Hk) as (sb & r & Hsb & Hrep & Hin).
+  destruct (get_sb_node_inv _ _ _ _ Hsb) as (im0 & nd & Hi0 & Hf & Hnsb).
+  rewrite Hi in Hi0. inversion Hi0; subst im0.
+  destruct (find_node_in _ _ _ Hf) as (Hnd & Hid).
+  assert (Hr0 : sb_rep (n_sb nd) = Some r) by (rewrite Hnsb; exact Hrep).
+  destruct (Hatt i im nd Hi Hnd) as (r' & Hr' & Ha). rewrite Hr0 in Hr'. inversion Hr'; subst r'.
+  apply (scoped_assign_disconnects_old_partial prog rec k c st st' i n im pc HT Hk Hc Hne Hi); [|exact Hstep].
+  exists r, sb. split; [exact Hsb|]. split; [exact Hrep|]. split; [exact Ha|].
+  intro Hwc. pose proof (Hex i im nd r (WC c) Hi Hnd Hr0 Hwc) as Z.
+  unfold conn_ptr in Z. rewrite Hc, Hid in Z. exact (Hne Z).
+Qed.
+
+Print Assumptions watch_exact_reachable.
+Print Assumptions watch_nodup_reachable.
+Print Assumptions scoped_assign_disconnects_old_reachable.
